@@ -448,7 +448,9 @@ func toolReplay(c *Ctx, env *toolEnv, name string, tc *toolCase, cli *int64) {
 			}
 			want = append(want, fmt.Sprint(rp[0])+" "+v)
 		}
-		if strings.Join(got, "; ") != strings.Join(want, "; ") {
+		if len(got) == 0 && len(want) > 0 && r.Stdout != "" {
+			c.infra(fmt.Errorf("compare prints %q: the verdict lines are not recognised (wording changed?)", firstLine(r.Stdout)))
+		} else if strings.Join(got, "; ") != strings.Join(want, "; ") {
 			bad(fmt.Sprintf("compare reports [%s], the model says [%s]", strings.Join(got, "; "), strings.Join(want, "; ")), nil)
 		}
 		if strings.Contains(r.Stdout, "::error::All rules need to be up to date") != tc.GhError {
@@ -464,7 +466,10 @@ func toolReplay(c *Ctx, env *toolEnv, name string, tc *toolCase, cli *int64) {
 		for _, f := range tc.FmtReports {
 			want = append(want, f+".ra")
 		}
-		if strings.Join(got, ",") != strings.Join(want, ",") {
+		if len(got) == 0 && len(want) > 0 && r.Stdout != "" {
+			// the wording of the report is not part of any property: not a verdict
+			c.infra(fmt.Errorf("format --check prints %q: the report lines are not recognised (wording changed?)", firstLine(r.Stdout)))
+		} else if strings.Join(got, ",") != strings.Join(want, ",") {
 			bad(fmt.Sprintf("format --check reports [%s] as not properly formatted, the model says [%s]", strings.Join(got, ","), strings.Join(want, ",")), nil)
 		}
 	}
